@@ -193,5 +193,6 @@ template <class T> bool run_closest (bool thorough);   // c13_closest.hpp
 template <class T> bool run_extremes (bool thorough);  // c13_extreme.hpp
 bool run_transforms (bool thorough);                   // c13_xform.cpp (float/double boxes)
 bool run_transforms_int (bool thorough);               // c13_xform_int.cpp (Box3i / Box3s)
+bool run_transforms_tiny (bool thorough);              // c13_xform_tiny.cpp (perspective entries whose squares underflow)
 
 } // namespace c13
